@@ -122,9 +122,9 @@ Definition mset_scalar (fs : list field) (m : mval) (f : field) (v : sval) : mva
 Inductive ctype := CtJSON | CtProto | CtOctet.
 Inductive bfmt := BJson | BBin.
 
-(* client marshalRequest / unmarshalResponse: "application/json" -> JSON, "application/x-protobuf"
-   -> binary, anything else (incl. application/octet-stream) -> protojson *)
-Definition client_fmt (ct : ctype) : bfmt := match ct with CtProto => BBin | _ => BJson end.
+(* client marshalRequest / unmarshalResponse: "application/json" -> JSON, "application/x-protobuf" and
+   "application/octet-stream" -> binary (as the server does) *)
+Definition client_fmt (ct : ctype) : bfmt := match ct with CtJSON => BJson | _ => BBin end.
 (* server bindDataBasedOnContentType / marshalResponse: octet-stream and x-protobuf -> binary *)
 Definition server_fmt (ct : ctype) : bfmt := match ct with CtJSON => BJson | _ => BBin end.
 Definition bfmt_eqb (a b : bfmt) : bool := match a, b with BJson, BJson | BBin, BBin => true | _, _ => false end.
@@ -253,8 +253,17 @@ Fixpoint match_segs (pat : list seg) (segs : list str) : option (list (str * str
   | _, _ => None
   end.
 
-(* specificity: at the first position where two matching patterns differ, the literal wins *)
+(* a pattern ending in '/' matches every path below it; [subtree_tail] recognises what is left of such a
+   pattern once its last segment (the empty one) is reached *)
+Definition subtree_tail (p : list seg) : bool := match p with [SLit []] => true | _ => false end.
+Definition is_subtree (p : list seg) : bool := match rev p with SLit [] :: _ => true | _ => false end.
+
+(* specificity: at the first position where two matching patterns differ,
+   literal > single wildcard > subtree remainder (net/http routing_tree.go) *)
 Fixpoint more_specific (a b : list seg) : bool :=
+  if subtree_tail b then true
+  else if subtree_tail a then false
+  else
   match a, b with
   | SLit x :: ar, SLit y :: br => more_specific ar br
   | SLit _ :: _, SVar _ :: _ => true
@@ -362,39 +371,54 @@ Definition all_singular_url (fs : list field) (vars : list str) : bool :=
                     | None => true end) vars &&
   forallb (fun f => url_kind_ok (f_kind f) && match f_card f with Singular => true | _ => false end) (query_fields fs).
 
+(* BindingMiddleware binds the body first (POST/PUT/PATCH only): the message the URL values are applied
+   to is the decoded body, or the empty message when there is no body, an empty one, or a bodiless verb;
+   a body in another format than the server reads is reported as field "body" *)
+Definition body_start (has_body : bool) (ct : ctype) (body : option (bfmt * mval)) : mval + str :=
+  if has_body then
+    match body with
+    | Some (f, v) => if bfmt_eqb f (server_fmt ct) then inl v else inr (s "body")
+    | None => inl []
+    end
+  else inl [].
+
+(* the mux answers 301 to path+"/" when the path has no exact match but path+"/" is exactly a registered
+   subtree pattern for that verb (net/http matchOrRedirect) *)
+Definition slash_redirect (rs : list sroute) (v : verb) (segs : list str) : bool :=
+  existsb (fun r => is_subtree (sr_pat r) && verb_eqb (rt_verb (sr_route r)) v &&
+                    Nat.eqb (List.length (sr_pat r)) (S (List.length segs)) &&
+                    match match_segs (sr_pat r) (segs ++ [[]]) with Some _ => true | None => false end) rs.
+
 (* the server's treatment of one request; [ct] is the request's Content-Type, [resp] the handler's reply *)
 Definition server_handle (rs : list sroute) (w : wire_req) (ct : ctype) (resp : mval)
   : result (option (mval * (bfmt * mval)) + (str + unit)) :=
   match w_path w with
   | c :: p =>
       let segs := split_on slash p in
-      if negb (clean_segs segs) then Ok (inr (inr tt)) else
+      if negb (clean_segs segs) then
+        (* 301 to the cleaned path; http.Client follows it, and a subtree route may then serve it *)
+        (if existsb (fun r => is_subtree (sr_pat r)) rs
+         then Unmodelled (s "redirect into a subtree route") else Ok (inr (inr tt)))
+      else
       match find_route rs (w_verb w) segs with
-      | None => Ok (inr (inr tt))
+      | None => if slash_redirect rs (w_verb w) segs
+                then Unmodelled (s "redirect into a subtree route") else Ok (inr (inr tt))
       | Some (r, b) =>
+          (* a subtree route is not an exact match for a path without trailing slash *)
+          if is_subtree (sr_pat r) && slash_redirect rs (w_verb w) segs
+          then Unmodelled (s "redirect into a subtree route") else
           if negb (all_singular_url (sr_fields r) (rt_pathvars (sr_route r)))
           then Unmodelled (s "URL-bound field of unmodelled kind/cardinality") else
-          match bind_path (sr_fields r) (rt_pathvars (sr_route r)) b [] with
+          match body_start (rt_body (sr_route r)) ct (w_body w) with
           | inr f => Ok (inr (inl f))
-          | inl m1 =>
-              match bind_query (sr_fields r) (query_fields (sr_fields r)) (w_query w) m1 with
+          | inl m0 =>
+              (* path then query values are applied on top of what the body said *)
+              match bind_path (sr_fields r) (rt_pathvars (sr_route r)) b m0 with
               | inr f => Ok (inr (inl f))
-              | inl m2 =>
-                  let bound :=
-                    if rt_body (sr_route r) then
-                      match w_body w with
-                      | Some (f, v) =>
-                          (* proto/protojson Unmarshal resets the message: URL-bound values are lost.
-                             An empty encoding (binary form of the default message) leaves it untouched. *)
-                          if bfmt_eqb f (server_fmt ct)
-                          then (match f, v with BBin, [] => inl m2 | _, _ => inl v end)
-                          else inr (s "body")
-                      | None => inl m2
-                      end
-                    else inl m2 in
-                  match bound with
+              | inl m1 =>
+                  match bind_query (sr_fields r) (query_fields (sr_fields r)) (w_query w) m1 with
                   | inr f => Ok (inr (inl f))
-                  | inl saw => Ok (inl (Some (saw, (server_fmt ct, resp))))
+                  | inl m2 => Ok (inl (Some (m2, (server_fmt ct, resp))))
                   end
               end
           end
@@ -439,7 +463,6 @@ Definition find_method (sv : service) (n : str) : option method :=
 
 Inductive c01_defect :=
   | C01Route (d : c03_defect)        (* client and server disagree on the route (see C03) *)
-  | C01OctetStreamJsonBody           (* client encodes application/octet-stream bodies as JSON, server reads binary *)
   | C01DotSegment                    (* a path value "." or ".." is swallowed by the mux's path cleaning *)
   | C01SlashValue                    (* a path value "/" (sent as %2F) is taken for a trailing slash by the mux *)
   | C01RequiredQueryOnBodyVerb       (* a required query parameter on POST/PUT/PATCH is never sent by the client *)
@@ -452,7 +475,6 @@ Inductive c01_defect :=
 Definition c01_defect_str (d : c01_defect) : str :=
   match d with
   | C01Route d => s "route:" ++ c03_defect_str d
-  | C01OctetStreamJsonBody => s "octet-stream-json-body"
   | C01DotSegment => s "dot-segment-path-value"
   | C01SlashValue => s "slash-path-value"
   | C01RequiredQueryOnBodyVerb => s "required-query-on-body-verb"
@@ -480,7 +502,6 @@ Definition defects_C01 (sc : schema) (fl : file) (sv : service) (md : method) (c
   let fs := in_fields sc md in
   let r := info_of fl sv md fs in
   map C01Route (filter route_defect (defects_C03 r)) ++
-  (match ct with CtOctet => [C01OctetStreamJsonBody] | _ => [] end) ++
   (if existsb (fun v => match find_field fs v with
                         | Some f => dirty_seg (sprint (scalar_of req f))
                         | None => false end) (path_vars r) then [C01DotSegment] else []) ++
